@@ -249,7 +249,21 @@ func TestVerifC02(t *testing.T) {
 					}
 					e := rng.Bytes(32)
 					if rule != "" {
+						// the candidate that the digest rule rejects comes in several shapes: random, with leading zero BYTES
+						// (its minimal encoding is shorter than 32 bytes), below 2^64, and n minus something small (so that n - k
+						// - which is r in the r+k=n case - has leading zero bytes): a rule rewritten on encodings must still fire
 						k := randScalar(rng)
+						switch (ki + nrej + rep) % 4 {
+						case 1:
+							k = new(big.Int).SetBytes(rng.Bytes(32 - 1 - rng.Intn(3)))
+						case 2:
+							k = new(big.Int).SetBytes(rng.Bytes(1 + rng.Intn(8)))
+						case 3:
+							k = new(big.Int).Sub(nI, new(big.Int).SetBytes(rng.Bytes(1+rng.Intn(30))))
+						}
+						if k.Sign() == 0 {
+							k = bi(1)
+						}
 						x1 := ref.BaseMulFast(k).X
 						var rT *big.Int
 						switch rule {
